@@ -62,7 +62,8 @@ type finding struct {
 	What      string  `json:"what"`
 	Commit    string  `json:"commit,omitempty"`
 	MaxRate   float64 `json:"max_rate,omitempty"`
-	RateOf    string  `json:"rate_of,omitempty"`
+	RateOf    string  `json:"rate_of,omitempty"`    // tally key(s), comma separated, summed: the denominator
+	CountFrom string  `json:"count_from,omitempty"` // optional tally-key prefix whose sum is the numerator (default: number of violation events)
 }
 
 type violation struct {
@@ -513,11 +514,27 @@ func loadFindings() []finding {
 	return doc.Findings
 }
 
+// sigMatch: exact match, or a glob where '*' stands for any run of characters.
 func sigMatch(pat, sig string) bool {
-	if strings.HasSuffix(pat, "*") {
-		return strings.HasPrefix(sig, strings.TrimSuffix(pat, "*"))
+	if !strings.Contains(pat, "*") {
+		return pat == sig
 	}
-	return pat == sig
+	parts := strings.Split(pat, "*")
+	if !strings.HasPrefix(sig, parts[0]) {
+		return false
+	}
+	rest := sig[len(parts[0]):]
+	for i := 1; i < len(parts); i++ {
+		if i == len(parts)-1 {
+			return strings.HasSuffix(rest, parts[i])
+		}
+		j := strings.Index(rest, parts[i])
+		if j < 0 {
+			return false
+		}
+		rest = rest[j+len(parts[i]):]
+	}
+	return true
 }
 
 func conclude(res *result, wall time.Duration) int {
@@ -542,10 +559,22 @@ func conclude(res *result, wall time.Duration) int {
 	for i, vs := range known {
 		f := findings[i]
 		if f.MaxRate > 0 && f.RateOf != "" {
-			den := res.tallies[f.RateOf]
-			if den > 0 && float64(len(vs)) > f.MaxRate*float64(den) {
+			var den int64
+			for _, k := range strings.Split(f.RateOf, ",") {
+				den += res.tallies[strings.TrimSpace(k)]
+			}
+			num := int64(len(vs))
+			if f.CountFrom != "" {
+				num = 0
+				for k, v := range res.tallies {
+					if strings.HasPrefix(k, f.CountFrom) {
+						num += v
+					}
+				}
+			}
+			if den > 0 && float64(num) > f.MaxRate*float64(den) {
 				unknown = append(unknown, violation{ID: vs[0].ID, Kind: "rate", Sig: "rate-above-known:" + f.Signature,
-					Detail: fmt.Sprintf("%d occurrences of known finding %q among %d %s exceeds the recorded rate cap %.4f", len(vs), f.Signature, den, f.RateOf, f.MaxRate), Data: vs[0].Data})
+					Detail: fmt.Sprintf("%d occurrences of known finding %q among %d %s exceeds the recorded rate cap %.4f", num, f.Signature, den, f.RateOf, f.MaxRate), Data: vs[0].Data})
 			}
 		}
 	}
